@@ -1,4 +1,105 @@
-/- driver operations of C19 (stub: no model yet) -/
+import EvoModel.Model.Basic
+import EvoModel.Model.SettingsProc
+/-! driver operations of C19: solo traces of the settings routines (trace correspondence) and
+arbitrary schedules of several processes (crash / interleaving replay). -/
 namespace Evo.Drv.C19
-def handle (_op : String) (_args : List String) : Option String := none
+open Evo Evo.FS
+
+def lackingDoc : Doc := Evo.Gen.defaultKeys.drop 3
+
+def parseV : String → Option File
+  | "absent" => some .absent
+  | "current" => some (.full (.ver current))
+  | "old" => some (.full (.ver 0))
+  | "empty" => some .empty
+  | "torn" => some .torn
+  | _ => none
+
+def parseS : String → Option File
+  | "absent" => some .absent
+  | "wf" => some (.full (.doc Evo.Gen.defaultKeys))
+  | "lacking" => some (.full (.doc lackingDoc))
+  | "empty" => some .empty
+  | "torn" => some .torn
+  | "garbage" => some .garbage
+  | _ => none
+
+def mkFS (dir : String) (v s : File) : FS :=
+  ((⟨dir = "1", fun _ => .absent⟩ : FS).set (.file .V) v).set (.file .S) s
+
+def mergeEdit (d : Doc) : Doc := d ++ ["extra_key_of_other_file"]
+
+/-- the program of a whole process (import evo, then the command) -/
+def scenario (variant name : String) : Option Prog :=
+  match variant, name with
+  | "new", "start" => some (start .done)
+  | "new", "reset_all" => some (start (resetAll .done))
+  | "new", "reset_subset" => some (start (resetSubset id .done))
+  | "new", "set" => some (start (setConfig id .done))
+  | "new", "merge" => some (start (mergeUnion mergeEdit .done))
+  -- evo_config's main(): show; set_config; [merge]; show   /  reset; show
+  | "new", "cli_set" => some (start (showCfg (setConfig id (showCfg .done))))
+  | "new", "cli_set_merge" => some (start (showCfg (setConfig id (mergeUnion mergeEdit (showCfg .done)))))
+  | "new", "cli_reset_all" => some (start (resetAll (showCfg .done)))
+  | "new", "cli_reset_subset" => some (start (resetSubset id (showCfg .done)))
+  | "old", "start" => some (Old.start .done)
+  | "old", "set" => some (Old.start (Old.setConfig id .done))
+  | _, _ => none
+
+def showFile : File → String
+  | .absent => "absent" | .empty => "empty" | .torn => "torn" | .garbage => "garbage"
+  | .full (.ver v) => if v = current then "ver-current" else "ver-old"
+  | .full (.doc d) => if hasDefaults d then "doc-wf" else "doc-lacking"
+
+def showLoaded : Option Doc → String
+  | none => "none"
+  | some d => if hasDefaults d then "wf" else "lacking"
+
+def showStatus (p : Proc) : String :=
+  if p.failed then "failed" else if p.prog.isDone then "done" else "running"
+
+def showFS (fs : FS) : String :=
+  s!"dir={if fs.dir then 1 else 0} S={showFile (fs.file (.file .S))} V={showFile (fs.file (.file .V))}"
+
+/-- run a schedule, recording whether `Safe` held in every state passed -/
+def runChecked (s : State) : List (Nat × Bool) → Bool → State × Bool
+  | [], ok => (s, ok && decide (Safe s.fs))
+  | (i, t) :: rest, ok => runChecked (s.sched i t) rest (ok && decide (Safe s.fs))
+
+def readSched : List String → Option (List (Nat × Bool))
+  | [] => some []
+  | i :: t :: rest => do
+      let i ← i.toNat?
+      let r ← readSched rest
+      some ((i, t = "1") :: r)
+  | _ => none
+
+/-- ops:
+  `trace variant scenario dir V S`        → `l1;l2;…|status|dir=… S=… V=…|loaded=…`
+  `sim variant n sc1 … scn dir V S i t …` → `st1,ld1 … | dir=… S=… V=… | safe-always=0/1 | tmp-left=k` -/
+def handle (op : String) (args : List String) : Option String :=
+  match op, args with
+  | "trace", [variant, sc, dir, v, s] => do
+      let prog ← scenario variant sc
+      let v ← parseV v
+      let s ← parseS s
+      let fs := mkFS dir v s
+      let (ls, p, fs') := soloTrace 0 200 { prog := prog } fs []
+      some (";".intercalate ls ++ "|" ++ showStatus p ++ "|" ++ showFS fs' ++ "|loaded=" ++ showLoaded p.regs.loaded)
+  | "sim", variant :: n :: rest => do
+      let n ← n.toNat?
+      let (scs, rest) ← takeN n rest
+      let progs ← scs.mapM (scenario variant)
+      match rest with
+      | dir :: v :: s :: sched => do
+          let v ← parseV v
+          let s ← parseS s
+          let sched ← readSched sched
+          let st : State := { fs := mkFS dir v s, procs := progs.map fun p => { prog := p } }
+          let (st', ok) := runChecked st sched true
+          let ps := " ".intercalate (st'.procs.map fun p => showStatus p ++ "," ++ showLoaded p.regs.loaded)
+          some (ps ++ " | " ++ showFS st'.fs ++ " | safe-always=" ++ (if ok then "1" else "0"))
+      | _ => none
+  | _, _ => none
+
 end Evo.Drv.C19
